@@ -191,6 +191,21 @@ def run(R, only=None):
             steps.append({"sql": "insert into c values " + ", ".join("(" + ", ".join(c02.lit(v) for v in r) + ")" for r in c_rows)})
         steps += [{"explain": sql, "optimize": False}, {"explain": sql}, {"sql": sql}]
         cases.append({"engine": R.rng.choice(["mem", "disk"]), "steps": steps, "sql": sql, "tags": tags})
+    # uncorrelated IN / NOT IN whose sub-query returns an EXPRESSION (the in-to-exists applier wraps it in a reference), over tables
+    # of 4-8 rows: none of the shapes of the sub-query known finding (correlation, scalar sub-queries, tiny tables)
+    for i in range(40 if R.tier == "quick" else 500):
+        rng = R.rng
+        sql = rng.choice([
+            "select x from a where x in (select x + 1 from b)", "select x, y from a where y not in (select z * 2 from b)",
+            "select x from a where x in (select x + z from b where z > 0)", "select x from a where x + 1 in (select x from b)",
+            "select count(*) from a where y in (select z - 1 from b)", "select x from a where x in (select x + 1 from b) and y > 0",
+            "select x from a where x in (select -x from b) order by x", "select s from a where x not in (select x + 1 from b where z is not null)",
+        ])
+        steps = [{"sql": "create table a(x int, y int, s varchar)"}, {"sql": "create table b(x int, z int)"}, {"sql": "create table c(x int, w int)"},
+                 {"sql": "insert into a values " + ", ".join(f"({rng.randint(0, 4)}, {rng.randint(0, 4)}, 'r{j}')" for j in range(rng.randint(4, 8)))},
+                 {"sql": "insert into b values " + ", ".join(f"({rng.randint(0, 4)}, {rng.randint(0, 3)})" for j in range(rng.randint(4, 8)))}]
+        steps += [{"explain": sql, "optimize": False}, {"explain": sql}, {"sql": sql}]
+        cases.append({"engine": rng.choice(["mem", "disk"]), "steps": steps, "sql": sql, "tags": {"in-expr"}})
     # tables with primary keys (ordered inputs: merge joins, sort aggregation, elided ORDER BY)
     for i in range(60 if R.tier == "quick" else 600):
         rng = R.rng
@@ -251,7 +266,7 @@ def run(R, only=None):
             continue
         if not built or "panic" in ran:
             # (the known finding is the dangling column reference / residual apply left by un-nesting, not any plan that cannot be built)
-            klass = "KF_C17_subquery_not_executable" if ("(select" in c["sql"] and ("not found from input" in txt or "Apply is not supported" in txt)) else \
+            klass = "KF_C17_subquery_not_executable" if ("(select" in c["sql"] and "in-expr" not in c["tags"] and ("not found from input" in txt or "Apply is not supported" in txt)) else \
                     "KF_C11_nl_right_full_todo" if "not yet implemented" in txt else "KF_C14_overflow_panics" if "overflow" in txt else None
             R.property_fails(klass, f"C17 `{c['sql']}` ({c['engine']}) was accepted and planned into {opt['plan'][:160]} which the executor cannot run: {txt[:160]}", rep)
         try:
